@@ -53,6 +53,56 @@ theorem chunked_decodes_by_rfc_reference (parts : List Bytes) (rest : Bytes) :
     (by simp only [chunkedWire, List.length_append]; omega)
   simpa [chunkedWire] using this
 
+/-! ### chunk framing: data chunks are never empty, the end chunk is written exactly once -/
+
+/-- regenerated fact: `(*chunkedBodyWriter).Write` frames one write as one chunk (a single writeChunk call, no loop) -/
+theorem cbw_one_chunk_per_write : Gen.cbwWriteChunkCalls = 1 ∧ Gen.cbwLoops = 0 := by decide
+
+/-- a write of n > 0 bytes emits chunks whose sizes are all > 0 and sum to n; a write of 0 bytes emits nothing -/
+theorem cbw_write_chunks (p : Bytes) : (∀ c ∈ cbwWrite p, c ≠ []) ∧ (cbwWrite p).flatten = p := by
+  unfold cbwWrite
+  cases p with
+  | nil => simp
+  | cons a t => simp
+
+theorem dataChunks_nonempty (reads : List Bytes) : ∀ c ∈ dataChunks reads, c ≠ [] := by
+  intro c hc
+  simp only [dataChunks, List.mem_flatMap] at hc
+  obtain ⟨p, _, hcp⟩ := hc
+  exact (cbw_write_chunks p).1 c hcp
+
+theorem dataChunks_flatten (reads : List Bytes) : (dataChunks reads).flatten = reads.flatten := by
+  induction reads with
+  | nil => rfl
+  | cons p t ih =>
+    simp only [dataChunks, List.flatMap_cons, List.flatten_append, List.flatten_cons] at ih ⊢
+    rw [(cbw_write_chunks p).2, ih]
+
+/-- the wire is: every data chunk (all non-empty, so every size line is non-zero) framed by writeChunk, followed by the
+    end chunk — which therefore occurs exactly once, at the end; the Read loop and the WriteTo framing produce the same
+    bytes for the same sequence of reads/writes -/
+theorem chunked_wire_shape (reads : List Bytes) :
+    writeBodyChunked reads = (dataChunks reads).flatMap writeChunk ++ writeChunk [] ∧
+    writeBodyChunkedWT reads = writeBodyChunked reads := by
+  have h1 : writeBodyChunked reads = (dataChunks reads).flatMap writeChunk ++ writeChunk [] := by
+    induction reads with
+    | nil => rfl
+    | cons p t ih =>
+      cases p with
+      | nil => simpa [writeBodyChunked, dataChunks, cbwWrite] using ih
+      | cons a u =>
+        simp only [writeBodyChunked, dataChunks, cbwWrite, List.isEmpty_cons, Bool.false_eq_true, if_false,
+          List.flatMap_cons, List.flatMap_nil, List.append_nil, List.singleton_append] at ih ⊢
+        rw [ih]; simp [List.append_assoc]
+  exact ⟨h1, by rw [h1]; rfl⟩
+
+/-- a data chunk's size line is never the end-of-body marker: `writeChunk c` for c ≠ [] does not start with "0\r\n" … -/
+theorem data_chunk_is_not_end_chunk (c : Bytes) (hc : c ≠ []) (hlen : c.length < 16 ^ 15) (rest : Bytes) :
+    decodeChunked 15 (writeChunk c ++ writeChunk [] ++ rest) = .ok (c, rest) := by
+  have := chunked_decode_encode 15 (by decide) [c] rest (by simpa using hlen)
+  have hce : c.isEmpty = false := by cases c <;> simp_all
+  simpa [writeBodyChunked, hce, List.append_assoc] using this
+
 /-- the chunked reader terminates: with the fuel `decodeChunked` gives it, it never runs out (for ANY input) -/
 theorem decode_never_out_of_fuel (m : Nat) (s : Bytes) : decodeChunked m s ≠ .error .fuel :=
   readBodyChunked_fuel m 0 (s.length + 1) s [] (by omega)
@@ -169,5 +219,6 @@ example : (decodeChunked 15 (ofString "2\r\nab\r\n1;x=y\r\nc\r\n0\r\n\r\nNEXT"))
     some (ofString "abc", ofString "\r\nNEXT") := by decide +kernel
 example : (decodeChunked 15 (ofString "2\r\nabXX0\r\n\r\n")).toOption = none := by decide +kernel
 example : writeBodyFixedSize [[1, 2], [3]] 3 = ([1, 2, 3], false) := by decide
+example : dataChunks [[1], [], [2, 3], []] = [[1], [2, 3]] := by decide
 
 end Fh.Props.C34
